@@ -710,7 +710,19 @@ func (s *sim) cmd(idx int, st Step) string {
 
 	// a header that cannot stand in front of a Go file makes generation fail for every package that has output
 	hdrNotGo := st.Header == "notgo" && len(okT) > 0
-	faultFired := len(fired) > 0 || st.NoGo || st.Header == "missing" || st.Header == "dir" || hdrNotGo
+	// gen has no need to read the existing output; a (changed) wire that does - to skip writing identical content,
+	// say - may tolerate a read error there and still succeed, or report it: neither breaks "exits 0 exactly when no
+	// package produced an error". Such a fault is not a failure the model may demand.
+	optionalRead := isGen && !hdrFaulted(st) && len(fired) > 0
+	for _, f := range fired {
+		if !strings.HasPrefix(f, "read:") {
+			optionalRead = false
+		}
+	}
+	if optionalRead {
+		e.Stats.Counts.Add("read_fault_on_existing_output_in_gen_status_not_judged", 1)
+	}
+	faultFired := len(fired) > 0 && !optionalRead || st.NoGo || st.Header == "missing" || st.Header == "dir" || hdrNotGo
 	// output path unusable (a directory) for a package that would be written
 	dirBlock := false
 	if isGen {
@@ -740,7 +752,7 @@ func (s *sim) cmd(idx int, st Step) string {
 				}
 				s.violate("C17", "F2", "gen/exit0-despite-failure/"+failClass(st, fired, dirBlock, len(badT) > 0, loadFails), "exit != 0", "exit 0", why)
 			}
-			if !expectFail && res.Exit != 0 {
+			if !expectFail && res.Exit != 0 && !optionalRead {
 				s.violate("C17", "F2", "gen/nonzero-without-failure", "exit 0", fmt.Sprintf("exit %d", res.Exit), firstLines(stderr, 4))
 				if fr.exit == 0 {
 					// the same command succeeds on a pristine tree with the same sources: only the history explains the failure
@@ -748,7 +760,7 @@ func (s *sim) cmd(idx int, st Step) string {
 				}
 			}
 			// ---------------- F3 isolation (C17) / R1 history independence (C18)
-			loadOK := !loadFails && !st.NoGo && st.Header != "missing" && st.Header != "dir" && st.Header != "notgo" && !firedHas(fired, "getwd") && !firedHas(fired, "read:")
+			loadOK := !loadFails && !st.NoGo && st.Header != "missing" && st.Header != "dir" && st.Header != "notgo" && !firedHas(fired, "getwd") && (!firedHas(fired, "read:") || optionalRead && res.Exit == 0)
 			if loadOK {
 				for _, n := range okT {
 					if writeFaulted(st, n, fired) {
